@@ -84,7 +84,11 @@ func c01Weights(r *rand.Rand) []int {
 
 // c01Build creates a balancer whose final pool has the given weights, reached via a random prior history.
 func c01Build(r *rand.Rand, next http.Handler, weights []int, histLen int) (*roundrobin.RoundRobin, []*url.URL, []string, error) {
-	rr, err := roundrobin.New(next)
+	return c01BuildOpts(r, next, weights, histLen)
+}
+
+func c01BuildOpts(r *rand.Rand, next http.Handler, weights []int, histLen int, opts ...roundrobin.LBOption) (*roundrobin.RoundRobin, []*url.URL, []string, error) {
+	rr, err := roundrobin.New(next, opts...)
 	if err != nil {
 		return nil, nil, nil, err
 	}
@@ -243,7 +247,12 @@ func c01Seq(c *Ctx) {
 			seen = append(seen, urlKey(req.URL))
 			mu.Unlock()
 		})
-		rr, urls, hist, err := c01Build(r, h, weights, r.IntN(12))
+		stickyMode := i%5 == 4
+		var lbOpts []roundrobin.LBOption
+		if stickyMode {
+			lbOpts = append(lbOpts, roundrobin.EnableStickySession(roundrobin.NewStickySession("aff")))
+		}
+		rr, urls, hist, err := c01BuildOpts(r, h, weights, r.IntN(12), lbOpts...)
 		if err != nil {
 			c.Violation("build", "building pool failed: "+err.Error(), map[string]any{"weights": weights})
 			return
@@ -264,11 +273,37 @@ func c01Seq(c *Ctx) {
 			c.Count("pools_over_W_cap", 1)
 			return
 		}
-		viaHTTP := r.IntN(3) == 0
+		viaHTTP := r.IntN(3) == 0 || stickyMode
 		total := 3*ref.W + r.IntN(ref.W+1)
 		seq := make([]string, 0, total)
 		if viaHTTP {
+			// with sticky sessions: requests that carry a valid affinity cookie are not selections; interleaved with the
+			// cookie-less ones they must not disturb the rotation
+			var pinned *url.URL
+			if stickyMode {
+				for k, u := range urls {
+					if ws[k] > 0 {
+						pinned = u
+					}
+				}
+			}
 			for k := 0; k < total; k++ {
+				if pinned != nil {
+					for q := r.IntN(3); q > 0; q-- {
+						req := httptest.NewRequest("GET", "http://client.test/x", nil)
+						req.AddCookie(&http.Cookie{Name: "aff", Value: pinned.String()})
+						mu.Lock()
+						before := len(seen)
+						mu.Unlock()
+						rr.ServeHTTP(httptest.NewRecorder(), req)
+						mu.Lock()
+						if len(seen) == before+1 && seen[before] == urlKey(pinned) {
+							seen = seen[:before] // served from its cookie: not a selection
+							c.Count("interleaved_cookie_requests", 1)
+						}
+						mu.Unlock()
+					}
+				}
 				rr.ServeHTTP(httptest.NewRecorder(), httptest.NewRequest("GET", "http://client.test/x", nil))
 			}
 			seq = seen
@@ -306,7 +341,8 @@ func c01Seq(c *Ctx) {
 func c01Conc(c *Ctx) {
 	c.Cases("conc", c.N(300, 5000), func(i int, r *rand.Rand) {
 		weights := c01Weights(r)
-		rr, urls, hist, err := c01Build(r, http.NotFoundHandler(), weights, r.IntN(6))
+		viaServe := r.IntN(2) == 0 // selections made by the HTTP handler path or by NextServer()
+		rr, urls, hist, err := c01Build(r, http.HandlerFunc(func(w http.ResponseWriter, req *http.Request) { w.Header().Set("X-Routed", urlKey(req.URL)) }), weights, r.IntN(6))
 		if err != nil {
 			c.Violation("build", err.Error(), nil)
 			return
@@ -315,6 +351,9 @@ func c01Conc(c *Ctx) {
 		c.Eval()
 		if ref.W == 0 || ref.W > 5000 {
 			return
+		}
+		if viaServe {
+			c.Count("conc_cases_via_ServeHTTP", 1)
 		}
 		P := pick(r, []int{2, 4, 8, 16})
 		K := 1 + r.IntN(6)
@@ -341,6 +380,17 @@ func c01Conc(c *Ctx) {
 						if n <= m || maxIn.CompareAndSwap(m, n) {
 							break
 						}
+					}
+					if viaServe && (p%4 != 3) { // most goroutines through ServeHTTP, a few through NextServer at the same time
+						rec := httptest.NewRecorder()
+						rr.ServeHTTP(rec, httptest.NewRequest("GET", "http://client.test/", nil))
+						inflight.Add(-1)
+						if k := rec.Header().Get("X-Routed"); k != "" {
+							counts[p][k]++
+						} else {
+							counts[p]["ERR"]++
+						}
+						continue
 					}
 					u, err := rr.NextServer()
 					inflight.Add(-1)
